@@ -26,6 +26,11 @@ def _exact(k, a, b):
     return (b ** (k + 1) - a ** (k + 1)) / (k + 1)
 
 
+def _exactn(k, a, b):
+    """integral of ((x-a)/(b-a))^k over [a,b]"""
+    return (b - a) / (k + 1)
+
+
 def _hier_grid(kind, a, b):
     from sparseSpACE import Grid as G
     a, b = np.array([a]), np.array([b])
@@ -143,12 +148,12 @@ def _highorder_nb(kind, g, f, order, pts, lv, a, b, key):
         fails.append(fail("weights_equal_moment_matching_reference", "points %r: weights %r, reference (degree %d) %r" % (pts, list(w), ref[1], list(ref[0])), key))
     degs = []
     for q in range(order + 1):
-        ex = _exact(q, a, b)
-        ok = abs(val[q] - ex) <= 1e-9 * max(1.0, abs(a), abs(b)) ** q * (b - a)
+        ex = _exactn(q, a, b)
+        ok = abs(val[q] - ex) <= 1e-9 * (b - a)
         degs.append(ok)
         demanded = q == 0 or (q == 1 and mod and ninner >= 2) or (q <= ref[1] and not ref[2])
         if demanded and not ok:
-            fails.append(fail("polynomial_exactness", "points %r: integral of x^%d is %r, exact %r" % (pts, q, val[q], ex),
+            fails.append(fail("polynomial_exactness", "points %r: integral of ((x-a)/(b-a))^%d is %r, exact %r" % (pts, q, val[q], ex),
                               dict(key, degree=("constant" if q == 0 else "linear" if q == 1 else "higher"))))
             break
     return fails, tuple(degs)
@@ -163,7 +168,8 @@ def _hier_case(c):
     for kind in HIER + (HIER_NB if len(pts) >= 3 else []):
         key = {"rule": kind[0], "order": str(kind[1])}
         g, order = _hier_grid(kind, a, b)
-        f = CustomFunction(lambda x: [float(x[0]) ** k for k in range(order + 1)], output_length=order + 1)
+        # polynomial basis ((x-a)/(b-a))^k: the same space as the monomials, but well conditioned on intervals far from the origin
+        f = CustomFunction(lambda x: [((float(x[0]) - a) / (b - a)) ** k for k in range(order + 1)], output_length=order + 1)
         if kind[0] == "bspline_nb_mod":
             # constants on every tree; linear functions from two inner points on (the level-1 function of the modified hierarchical
             # basis is the constant: x needs BOTH level-2 points - recorded in the key, the other trees are a known finding)
@@ -171,8 +177,8 @@ def _hier_case(c):
             val = np.asarray(g.integrate(f, [max(lv)], np.array([a]), np.array([b])), dtype=float).ravel()
             both = list(lv).count(2) == 2
             for q in ((0, 1) if len(pts) >= 4 else (0,)):
-                if abs(val[q] - _exact(q, a, b)) > 1e-9 * max(1.0, abs(a), abs(b)) ** q * (b - a):
-                    fails.append(fail("polynomial_exactness", "points %r: integral of x^%d is %r, exact %r" % (pts, q, val[q], _exact(q, a, b)),
+                if abs(val[q] - _exactn(q, a, b)) > 1e-9 * (b - a):
+                    fails.append(fail("polynomial_exactness", "points %r: integral of ((x-a)/(b-a))^%d is %r, exact %r" % (pts, q, val[q], _exactn(q, a, b)),
                                       dict(key, degree=("constant" if q == 0 else "linear"), both_level2_points=both)))
                     break
             out.append(tuple(round(float(v), 9) for v in val))
@@ -193,8 +199,8 @@ def _hier_case(c):
                 fails.append(fail("weights_equal_moment_matching_reference", "points %r: weights %r, reference (degree %d) %r" % (pts, list(w), ref[1], list(ref[0])), key))
             out.append(("deg", ref[1]))
         for q in range(order + 1):
-            ex = _exact(q, a, b)
-            ok = abs(val[q] - ex) <= 1e-9 * max(1.0, abs(a), abs(b)) ** q * (b - a)
+            ex = _exactn(q, a, b)
+            ok = abs(val[q] - ex) <= 1e-9 * (b - a)
             degs.append(ok)
             if kind[0] == "highorder":
                 # "enough points" for this rule = non-negative moment-matching weights exist up to degree q (reference model);
@@ -205,7 +211,7 @@ def _hier_case(c):
             else:
                 demanded = q <= 1 or (2 ** m + 1 >= q + 1)
             if demanded and not ok:
-                fails.append(fail("polynomial_exactness", "points %r (complete level %d): integral of x^%d is %r, exact %r" % (pts, m, q, val[q], ex),
+                fails.append(fail("polynomial_exactness", "points %r (complete level %d): integral of ((x-a)/(b-a))^%d is %r, exact %r" % (pts, m, q, val[q], ex),
                                   dict(key, degree=("linear" if q <= 1 else "higher"))))
                 break
         out.append(tuple(degs))
@@ -284,10 +290,14 @@ def cases(tier):
     for a, b in ((0.0, 1.0), (-3.0, 6.0)):
         fams.append((a, b, "dyadic", trees.tree_family(4, 6 if q else 8, a, b)))
     fams.append((0.0, 1.0, "third", trees.tree_family(3 if q else 4, 5 if q else 7, 0.0, 1.0, _mid_third)))
+    # strongly graded trees (refinement towards an end point / an inner point), also on an interval far from the origin where the
+    # mesh width falls below absolute and relative comparison tolerances
+    fams.append((0.0, 1.0, "graded", trees.graded_chains(12 if q else 22, 0.0, 1.0, start=5)))
+    fams.append((1000.0, 1001.0, "graded", trees.graded_chains(10 if q else 14, 1000.0, 1001.0, start=2)))
     for a, b, split, T in fams:
         for pts, lv in T:
             out.append({"config": {"kind": "trap", "a": a, "b": b, "split": split, "points": pts, "levels": lv}})
-            if split == "dyadic" and (a == 0.0 or len(pts) <= 9):
+            if split in ("dyadic", "graded") and (a == 0.0 or len(pts) <= 9 or split == "graded"):
                 out.append({"config": {"kind": "hier", "a": a, "b": b, "split": split, "points": pts, "levels": lv}})
     # object reuse: ordered pairs (with repetition) of trees on ONE grid object, incl. complete trees with 17 and 33 points
     def complete(m, a, b):
